@@ -18,5 +18,8 @@ def run(rep, tier, seed):
     lines2 = domhist.gen_diseq_boundary(random.Random(seed + 34), 150 if tier == "quick" else 3000) + lines2
     vlib.run_stream(rep, "itv-disequalities", "itvdom", "itvdom", lines2, oracle=domhist.oracle_dense,
                     nontrivial=domhist.nontrivial, key=lambda l: "history")
+    # flat_boolean_numerical_domain<interval_domain>: mirrored (Dom/FlatBool.v), proved, exact correspondence
+    import C03_flatbool
+    C03_flatbool.streams(rep, tier, seed)
     import domall
     domall.search(rep, tier, seed, "C03")
